@@ -125,6 +125,45 @@ def q2_structured(rng):
     return ops
 
 
+def qcb_random(rng, n):
+    """callback consumers (op 6 k: completion callback re-pops k times from inside the callback) mixed with plain ops"""
+    v = Vals()
+    ops = []
+    for _ in range(n):
+        r = rng.random()
+        if r < 0.42:
+            ops.append([1, v()])
+        elif r < 0.62:
+            ops.append([6, rng.choice([0, 1, 2, 3, 5])])
+        elif r < 0.72:
+            ops.append([2])
+        elif r < 0.84:
+            ops.append([3, rng.randint(1, 9)])
+        elif r < 0.97:
+            ops.append([4])
+        else:
+            ops.append([5])
+    return ops
+
+
+def qcb_structured(rng):
+    v = Vals()
+    P = lambda: [1, v()]
+    k = rng.randint(1, 4)
+    style = rng.randrange(5)
+    if style == 0:    # the seeded-demo shape: item queued, callback consumer starts, pushes are handed to it one by one
+        ops = [P(), [6, k + 3]] + [P() for _ in range(k)] + [[3, 7], P(), [4], [5]]
+    elif style == 1:  # consumer waits first; every push re-enters pop() from the callback
+        ops = [[6, k]] + [P() for _ in range(k + 2)] + [[2], [4]]
+    elif style == 2:  # several items queued: the chain drains them inside one op, then parks
+        ops = [P() for _ in range(k + 1)] + [[6, k + 2], [4], P(), P()]
+    elif style == 3:  # two callback consumers and a plain pop compete: service stays in arrival order
+        ops = [[6, 2], [2], [6, 1]] + [P() for _ in range(6)] + [[3, 4], [3, 5]]
+    else:             # unblock_pop re-enters too; budget 0 consumer stops
+        ops = [[6, 0], [6, 2], [3, 1], [3, 2], P(), P(), [3, 3], [5], [6, 1]]
+    return ops
+
+
 def gen_c09_seq(seed, tier):
     rng = random.Random(seed * 104729 + 9)
     n = 60 if tier == "quick" else 700
@@ -140,6 +179,9 @@ def gen_c09_seq(seed, tier):
             cases.append(Case(eng, "%s_r%d" % (eng, i), q_random(rng, L, void, bias[0], bias[1]))); i += 1
         for _ in range(max(4, n // 8)):
             cases.append(Case(eng, "%s_m%d" % (eng, i), q_malformed(rng, void))); i += 1
+    for _ in range(n):
+        cases.append(Case("qcb", "qcb_s%d" % i, qcb_structured(rng))); i += 1
+        cases.append(Case("qcb", "qcb_r%d" % i, qcb_random(rng, rng.choice([5, 9, 15, 24])))); i += 1
     m = 40 if tier == "quick" else 400
     for _ in range(m):
         cases.append(Case("q2", "q2_s%d" % i, q2_structured(rng))); i += 1
@@ -260,18 +302,23 @@ def thr_case(rng, engine, name, limit=None, unblock=True):
     decl = []
     for p in range(np_):
         decl.append([1] + [100 * (p + 1) + k for k in range(per[p])])
-    # pops: mostly balanced (every pop can complete); sometimes fewer, rarely more (deadlock observation)
-    want = total if rng.random() < 0.8 else max(0, total + rng.choice([-2, -1, 1]))
-    nu = 0
-    if unblock and rng.random() < 0.3:
-        nu = rng.randint(1, 2)
+    destroy = rng.random() < 0.2
+    # pops: mostly balanced (every pop can complete); sometimes fewer, rarely more (deadlock observation, or cancellation
+    # by the destroyer thread)
+    want = total if rng.random() < (0.5 if destroy else 0.8) else max(0, total + rng.choice([-2, -1, 1, 2]))
     cnt = [0] * nc
     for _ in range(want):
         cnt[rng.randrange(nc)] += 1
     for c in range(nc):
         decl.append([2, cnt[c]])
-    if nu:
-        decl.append([3, nu, rng.randint(1, 9)])
+    if unblock and rng.random() < 0.3:
+        decl.append([3, rng.randint(1, 2), rng.randint(1, 9)])
+    if engine == "tlq" and rng.random() < 0.3:
+        decl.append([6, rng.randint(1, 2), rng.randint(1, 9)])
+    if rng.random() < 0.2:
+        decl.append([4, rng.randint(1, 3)])
+    if destroy:
+        decl.append([5])
     rng.shuffle(decl)
     L = rng.choice([0, 6, 12, 20, 40])
     style = rng.random()
@@ -287,6 +334,19 @@ def thr_case(rng, engine, name, limit=None, unblock=True):
     return Case(engine, name, ops)
 
 
+# small thread sets whose every schedule prefix is enumerated: races for the LAST waiter / the LAST blocked push
+RACE_CFGS = {
+    "tq": [[[2, 2], [3, 1, 7], [1, 101, 102]],            # unblock_pop races push for the only waiting pop
+           [[2, 1], [2, 1], [3, 2, 7], [1, 101]],
+           [[1, 101, 102], [2, 2], [4, 2]],
+           [[2, 2], [1, 101], [5]]],                       # the destroyer cancels what is left waiting
+    "tlq": [[[1, 101, 102, 103], [2, 2], [6, 1, 7]],      # unblock_push races pop for the only blocked push
+            [[1, 101, 102], [1, 201], [2, 3]],
+            [[2, 2], [3, 1, 7], [1, 101, 102]],
+            [[1, 101, 102, 103], [2, 1], [5]]],
+}
+
+
 def gen_ctl(seed, tier, engine):
     rng = random.Random(seed * 32452843 + (901 if engine == "tq" else 1001))
     n = 260 if tier == "quick" else 3000
@@ -294,8 +354,12 @@ def gen_ctl(seed, tier, engine):
     for i in range(n):
         limit = None if engine == "tq" else rng.choice([1, 1, 2, 2, 3, 4])
         cases.append(thr_case(rng, engine, "%s%d" % (engine, i), limit))
+    j = 0
+    for decl in RACE_CFGS[engine]:
+        for pre in itertools.product(range(3), repeat=4 if tier == "quick" else 7):
+            lim = [[0, 1]] if engine == "tlq" else []
+            cases.append(Case(engine, "%sr%d" % (engine, j), lim + decl + [[9] + list(pre)])); j += 1
     if tier != "quick":
-        j = 0
         cfgs = [[[1, 101, 102], [2, 2]], [[1, 101], [1, 201], [2, 1], [2, 1]], [[2, 2], [1, 101, 102]],
                 [[1, 101, 102], [2, 1], [2, 1]], [[1, 101], [1, 201], [2, 2]]]
         for decl in cfgs:
@@ -306,7 +370,7 @@ def gen_ctl(seed, tier, engine):
 
 
 def ctl_nontrivial(case, model_obs):
-    tids = [l.split()[0] for l in model_obs if len(l.split()) == 2 and l.split()[1] in ("70", "71", "72")]
+    tids = [l.split()[0] for l in model_obs if len(l.split()) == 2 and l.split()[1] in ("70", "71", "72", "73")]
     switches = sum(1 for a, b in zip(tids, tids[1:]) if a != b)
     return switches >= 3
 
